@@ -28,9 +28,9 @@ func (r *RNG) Intn(n int) int {
 	}
 	return int(r.U64() % uint64(n))
 }
-func (r *RNG) Bool() bool       { return r.U64()&1 == 1 }
+func (r *RNG) Bool() bool        { return r.U64()&1 == 1 }
 func (r *RNG) Chance(p int) bool { return r.Intn(100) < p } // p percent
-func (r *RNG) Fork() *RNG       { return &RNG{s: r.U64()} }
+func (r *RNG) Fork() *RNG        { return &RNG{s: r.U64()} }
 
 func bits(u uint32) float32 { return math.Float32frombits(u) }
 
